@@ -87,6 +87,73 @@ def indices(a, b):
     return res
 
 
+def emi_recurrence(ra, rb, n):
+    """Expected mutual information under the hypergeometric model, computed WITHOUT factorials: for each pair of marginals
+    the weights w(k) ~ P(n_ij = k) follow w(k+1)/w(k) = (a-k)(b-k) / ((k+1)(n-a-b+k+1)); start at the mode with weight 1,
+    walk both ways until the weights vanish, normalise by their sum.  Cost is O(width of the distribution), so it also
+    works for hundreds of thousands of frames."""
+    emi = 0.0
+    for a in ra:
+        for b in rb:
+            lo, hi = max(0, a + b - n), min(a, b)
+            mode = min(hi, max(lo, ((a + 1) * (b + 1)) // (n + 2)))
+            ws = {mode: 1.0}
+            w, k = 1.0, mode
+            while k < hi and w > 1e-300:
+                w *= (a - k) * (b - k) / ((k + 1) * (n - a - b + k + 1))
+                k += 1
+                ws[k] = w
+            w, k = 1.0, mode
+            while k > lo and w > 1e-300:
+                w *= k * (n - a - b + k) / ((a - k + 1) * (b - k + 1))
+                k -= 1
+                ws[k] = w
+            tot = math.fsum(ws.values())
+            emi += math.fsum(k / n * math.log(n * k / (a * b)) * (w / tot) for k, w in ws.items() if k > 0)
+    return emi
+
+
+def indices_from_counts(c):
+    """ARI / MI / AMI / NMI / NCE from a contingency table given as {(i, j): count} (counts may be huge)."""
+    ra, rb = Counter(), Counter()
+    for (i, j), v in c.items():
+        ra[i] += v
+        rb[j] += v
+    n = sum(c.values())
+    res = {"n": n, "k_ref": len(ra), "k_est": len(rb)}
+    same_a = sum(comb2(v) for v in ra.values())
+    same_b = sum(comb2(v) for v in rb.values())
+    both = sum(comb2(v) for v in c.values())
+    tot = comb2(n)
+    if (len(ra) == len(rb) == 1) or (len(ra) == len(rb) == n):
+        res["ari"] = 1.0
+    else:
+        exp = F(same_a * same_b, tot)
+        mx = F(same_a + same_b, 2)
+        res["ari"] = float((both - exp) / (mx - exp)) if mx != exp else None
+    mi = math.fsum(v / n * math.log(F(v * n, ra[i] * rb[j])) for (i, j), v in c.items() if v)
+    res["mi"] = mi
+    ha = -math.fsum(v / n * math.log(v / n) for v in ra.values())
+    hb = -math.fsum(v / n * math.log(v / n) for v in rb.values())
+    res["h_ref"], res["h_est"] = ha, hb
+    res["nmi"] = 1.0 if len(ra) == len(rb) == 1 else mi / max(math.sqrt(ha * hb), 1e-10)
+    if len(ra) == len(rb) == 1:
+        res["ami"] = 1.0
+    else:
+        emi = emi_recurrence(list(ra.values()), list(rb.values()), n)
+        den = max(ha, hb) - emi
+        res["ami"] = (mi - emi) / den if abs(den) > 1e-9 else None
+    h_a_given_b = sum(rb[j] / n * H2([c.get((i, j), 0) for i in ra]) for j in rb)
+    h_b_given_a = sum(ra[i] / n * H2([c.get((i, j), 0) for j in rb]) for i in ra)
+    for marg in (False, True):
+        za = H2(list(ra.values())) if marg else math.log2(len(ra))
+        zb = H2(list(rb.values())) if marg else math.log2(len(rb))
+        under = 1 - h_a_given_b / za if za > 0 else 0.0
+        over = 1 - h_b_given_a / zb if zb > 0 else 0.0
+        res["nce", marg] = (over, under)
+    return res
+
+
 def fbeta(p, r, beta):
     if p == 0 and r == 0:
         return 0.0
